@@ -38,7 +38,7 @@ func startDoc(r *fw.Rand, deep bool) (map[string]interface{}, string) {
 	}
 	if r.Chance(2, 5) {
 		var l []interface{}
-		for _, u := range genPick(r, gen.URIPool, r.Range(1, 3)) {
+		for _, u := range gen.PickURIs(r, r.Range(1, 3)) {
 			l = append(l, u)
 		}
 		doc["alsoKnownAs"] = l
